@@ -305,6 +305,22 @@ func (e *C19) Run(ctx *core.Ctx, idx int) {
 			if len(diff) > 0 {
 				w.Mon.viol("C19", "C19.refused-but-changed", attrs, nil, d)
 			}
+			// a refusal although the documented precondition holds and the command is the one that
+			// the situation calls for: unpause of a paused canary, pause of a running one, validate or
+			// fail of an active canary ("pause leads to Canary Paused, unpause back to Canary, ...")
+			// (judged for the first accepted-or-refused canary command only: no reconcile runs between
+			// the commands of a sequence, so after an accepted command status.state is no longer the
+			// situation the next one sees - "already paused / validated / not paused" are then legitimate)
+			if precond && isCanaryCmd && edsBefore.Spec.Strategy.Canary != nil && !acted {
+				st := edsBefore.Status.State
+				needed := (cmd == "canary-unpause" && st == v1.ExtendedDaemonSetStatusStateCanaryPaused) ||
+					(cmd == "canary-pause" && st == v1.ExtendedDaemonSetStatusStateCanary) ||
+					((cmd == "canary-validate" || cmd == "canary-fail") && (st == v1.ExtendedDaemonSetStatusStateCanary || st == v1.ExtendedDaemonSetStatusStateCanaryPaused))
+				ctx.Count("C19.refusals-judged")
+				if needed {
+					w.Mon.viol("C19", "C19.refused-although-precondition-holds", merge(attrs, "edsState", string(st)), nil, d)
+				}
+			}
 			continue
 		}
 		if !precond {
